@@ -2,8 +2,10 @@ package main
 
 import (
 	"fmt"
+	"math/rand"
 	"os"
 	"path/filepath"
+	"sync"
 
 	"github.com/glowlabs-org/gca-backend/client"
 	"github.com/glowlabs-org/gca-backend/glow"
@@ -66,6 +68,83 @@ func runHistory(c *ctx) error {
 					t.Emit(hx.J{"a": "Load", "k": limbs32(k), "v": int(int32(got)), "err": lerr != nil})
 				}
 			}
+			cl.VerifStop()
+			os.RemoveAll(dir)
+		}
+		// the store used by two goroutines at once, as the report loop and a sync round do
+		{
+			dir := filepath.Join(c.root, "storeconc")
+			os.MkdirAll(dir, 0755)
+			os.WriteFile(filepath.Join(dir, client.HistoryFile), []byte{100, 0, 0, 0}, 0644)
+			cl := client.VerifNewBareClient(dir)
+			if err := cl.VerifLoadHistory(); err != nil {
+				return err
+			}
+			t.Emit(hx.J{"a": "Open", "origin": limbs32(100)})
+			const nslots = 500
+			f := func(slot uint32) uint32 { return 1000 + 7*slot }
+			type ev struct {
+				a    string
+				slot uint32
+				v    uint32
+				err  bool
+				pan  bool
+			}
+			var wev, rev []ev
+			stop := make(chan struct{})
+			var wg sync.WaitGroup
+			wg.Add(2)
+			go func() { // the report loop: saves every row of the energy file on every pass
+				defer wg.Done()
+				for pass := 0; pass < 6; pass++ {
+					for s := uint32(100); s < 100+nslots; s++ {
+						var e1, e2 error
+						p := catchPanic(func() { e1 = cl.VerifSaveReading(s, f(s)) })
+						wev = append(wev, ev{"ConcSaveOwn", s, f(s), e1 != nil, p != ""})
+						if s%5 == 0 {
+							p = catchPanic(func() { e2 = cl.VerifSaveReading(s, f(s)+1) })
+							wev = append(wev, ev{"ConcSaveOther", s, f(s) + 1, e2 != nil, p != ""})
+						}
+					}
+				}
+				close(stop)
+			}()
+			go func() { // a sync round: loads what the server is missing
+				defer wg.Done()
+				r2 := rand.New(rand.NewSource(c.seed + 99))
+				for {
+					select {
+					case <-stop:
+						return
+					default:
+					}
+					s := uint32(100 + r2.Intn(nslots))
+					var v uint32
+					var e error
+					p := catchPanic(func() { v, e = cl.VerifLoadReading(s) })
+					if len(rev) < 40000 {
+						rev = append(rev, ev{"ConcLoad", s, v, e != nil, p != ""})
+					}
+				}
+			}()
+			wg.Wait()
+			emit := func(x ev) {
+				t.Emit(hx.J{"a": x.a, "k": limbs32(x.slot), "v": int(int32(x.v)), "f": int(int32(f(x.slot))), "err": x.err, "panic": x.pan})
+			}
+			// only events that are wrong, plus a sample of the others, go to the trace (the rule is per event)
+			for _, list := range [][]ev{wev, rev} {
+				for i, x := range list {
+					bad := x.pan || (x.a == "ConcLoad" && (x.err || (x.v != 0 && x.v != f(x.slot)))) || (x.a == "ConcSaveOwn" && x.err) || (x.a == "ConcSaveOther" && !x.err)
+					if bad || i%40 == 0 {
+						emit(x)
+					}
+				}
+			}
+			for s := uint32(100); s < 100+nslots; s++ {
+				v, e := cl.VerifLoadReading(s)
+				emit(ev{"ConcFinal", s, v, e != nil, false})
+			}
+			c.summary["conc_store_ops"] = len(wev) + len(rev)
 			cl.VerifStop()
 			os.RemoveAll(dir)
 		}
